@@ -338,6 +338,9 @@ impl Property for C13 {
     fn id(&self) -> &'static str {
         "C13"
     }
+    fn ir_shrinkable(&self) -> bool {
+        true
+    }
     fn fuzzable(&self) -> bool {
         true
     }
@@ -366,7 +369,7 @@ impl Property for C13 {
                 continue;
             }
             ctx.label("enumerated");
-            let case = || json!({"script": s, "source": render::pretty(&prog)});
+            let case = || json!({"script": s, "source": render::pretty(&prog), "ir": serde_json::to_value(&prog).unwrap()});
             if let Err(v) = judge(&prog, ctx, &case) {
                 out.push(v);
                 if out.len() > 10 {
@@ -379,10 +382,15 @@ impl Property for C13 {
     fn judge_tape(&self, tape: &[u8], ctx: &mut Ctx) -> Judged {
         let mut t = Tape::new(tape);
         let prog = build(&mut t, 4, true);
-        let case = || json!({"tape": hex(tape), "source": render::pretty(&prog)});
+        let case = || json!({"tape": hex(tape), "source": render::pretty(&prog), "ir": serde_json::to_value(&prog).unwrap()});
         judge(&prog, ctx, &case)
     }
     fn replay(&self, case: &Value, ctx: &mut Ctx) -> Judged {
+        if case.get("ir").map(|x| !x.is_null()).unwrap_or(false) {
+            let prog = crate::props::c01::prog_from_case(case).map_err(|e| Violation::new("harness-error", e, case.clone()))?;
+            let c = case.clone();
+            return judge(&prog, ctx, &move || c.clone());
+        }
         if let Some(s) = case["script"].as_array() {
             let script: Vec<usize> = s.iter().map(|x| x.as_u64().unwrap_or(0) as usize).collect();
             let mut sc = Script::new(script);
